@@ -247,8 +247,18 @@ func (pv *prov) walk(v ssa.Value, pd, d int) {
 					pv.add("alloc:" + typeStr(deref(a.Type())))
 				}
 			case *ssa.FieldAddr:
-				if localAlloc(a.X) != nil {
+				if la := localAlloc(a.X); la != nil {
 					if pv.storesTo(a, pd, d) {
+						return
+					}
+					if prm := spilledParam(la); prm != nil {
+						// a struct parameter spilled to memory: the field is the caller's
+						pv.add(fieldLeaf(a.X.Type(), a.Field))
+						pv.add("param:" + funcLeafName(prm.Parent()) + "#" + prm.Name())
+						return
+					}
+					if wholeStructStored(la) {
+						pv.add(fieldLeaf(a.X.Type(), a.Field))
 						return
 					}
 					pv.add("zero:" + fieldLeaf(a.X.Type(), a.Field)[6:])
@@ -585,4 +595,17 @@ func (p *Prog) LeavesExpanded(v ssa.Value, opts provOpts, expand ...string) []st
 		}
 	}
 	return cur
+}
+
+// wholeStructStored: the local struct variable is assigned as a whole (copy of another struct value).
+func wholeStructStored(a *ssa.Alloc) bool {
+	if a.Referrers() == nil {
+		return false
+	}
+	for _, ref := range *a.Referrers() {
+		if st, ok := ref.(*ssa.Store); ok && st.Addr == ssa.Value(a) {
+			return true
+		}
+	}
+	return false
 }
